@@ -60,8 +60,15 @@ def remove_article(s: str) -> str:
 
 
 def _collect_typevars(d: t.Dict[t.Union[t.TypeVar, ParamSpec], None], ty: t.Any):
-    if isinstance(ty, type):
-        pass
+    if isinstance(ty, (str, bytes)) or t.get_origin(ty) is t.Literal:
+        pass  # no types inside
+    elif t.get_origin(ty) is t.Annotated:
+        _collect_typevars(d, t.get_args(ty)[0])
+    elif isinstance(ty, type):
+        if '__pane_boundvars__' in ty.__dict__:
+            # a subscripted pane dataclass: a real class, but it may still have free type variables (``Cls[T]``)
+            for arg in ty.__dict__.get('__parameters__', ()):
+                d.setdefault(arg)
     elif isinstance(ty, (tuple, t.Sequence)):
         ty = t.cast(t.Sequence[t.Any], ty)
         for arg in ty:
@@ -71,6 +78,10 @@ def _collect_typevars(d: t.Dict[t.Union[t.TypeVar, ParamSpec], None], ty: t.Any)
             _collect_typevars(d, arg)
     elif hasattr(ty, '__typing_subst__') or isinstance(ty, (t.TypeVar, ParamSpec)):
         d.setdefault(ty)
+    elif len(t.get_args(ty)):
+        # look into the arguments ourselves: `typing` skips real classes, subscripted pane dataclasses included
+        for arg in t.get_args(ty):
+            _collect_typevars(d, arg)
     else:
         for ty in getattr(ty, '__parameters__', ()):
             d.setdefault(ty)
